@@ -97,9 +97,9 @@ def _run(ev, work, thorough):
     # valid files from "any writer" (Format.tla: the type table and the dictionary-width lattice) and nested columns
     # (Nested.tla: every page cut) - the decoders are driven by what the FILE says, the sharpest inputs for overruns
     fcases = []
-    for name in ("E-types", "A-dict-index-widths-and-runs"):
+    for name in ("E-types", "A-dict-index-widths-and-runs", "H-statistics-old-and-new-style"):
         cs, fres = c03.export(work, c03.LATTICES[name], "san" + name[0])
-        cs = cs if name.startswith("E") else cs[::(7 if not thorough else 2)]
+        cs = cs if name[0] in "EH" else cs[::(7 if not thorough else 2)]
         ev.add_tlc("Format sub-lattice %s: layouts for the sanitized reader" % name, fres, layouts=len(cs))
         fcases.extend(cs)
     # ASan stops a process at its first report: layouts with a KNOWN overrun (delta pages) run one per process so that
